@@ -16,6 +16,19 @@ theorem C08_unresolved_ranges_reviewed : mapRangeUnresolved = reviewedNonMap := 
 
 theorem C08_no_ambient_nondeterminism : ambientUses = [] := by rfl
 
+/-- every variable that a map-range body carries from one iteration to the next is a reviewed one -/
+theorem C08_loop_carried_state_reviewed : mapRangeCarriedState = carriedReview.map (·.1) := by rfl
+
+/-- the only plain assignments among them (the order-sensitive kind): the first-error / message variables
+of GetMultipleAssetsPrices and the running maxima of recacheAggregatorContext -/
+theorem C08_plain_assignments_carried :
+    mapRangePlainAssignments = [
+      "x/oracle/keeper/prices.go:Keeper.GetMultipleAssetsPrices:assets|err|assign",
+      "x/oracle/keeper/prices.go:Keeper.GetMultipleAssetsPrices:assets|prices|assign",
+      "x/oracle/keeper/single.go:recacheAggregatorContext:recentParamsMap#2|prev|assign",
+      "x/oracle/keeper/single.go:recacheAggregatorContext:recentParamsMap#3|prev|assign",
+      "x/oracle/keeper/single.go:recacheAggregatorContext:recentParamsMap|prev|assign"] := by rfl
+
 /-- no function that ranges over a map singles out the first / last element of a slice loop (the way a
 map-derived order becomes observable after a tie-tolerant sort) -/
 theorem C08_no_position_dependent_use : positionDependentUses = [] := by rfl
